@@ -8,40 +8,10 @@ namespace MtxVerif.C10
 
 /-! ### decrypt -/
 
-/-- full-strength totality of `decrypt.Decrypt` (for every base64 / secretbox behaviour). FALSE on the current tree. -/
-def decrypt_total_full : Prop :=
-  ∀ (b64 : Bytes → Option Bytes) (sopen : Bytes → Bytes → Bytes → Option Bytes) (key file : Bytes),
-    decrypt b64 sopen key file ≠ .panic
-
-/-- exact characterisation of the panic: the base64 text decodes to fewer than 24 bytes. -/
-theorem decrypt_panic_iff (b64 : Bytes → Option Bytes) (sopen : Bytes → Bytes → Bytes → Option Bytes) (key file : Bytes) :
-    decrypt b64 sopen key file = .panic ↔ ∃ enc, b64 file = some enc ∧ enc.length < 24 := by
+/-- **`decrypt.Decrypt` never panics**, for every behaviour of base64 / secretbox and every key and file. -/
+theorem decrypt_total (b64 : Bytes → Option Bytes) (sopen : Bytes → Bytes → Bytes → Option Bytes) (key file : Bytes) :
+    decrypt b64 sopen key file ≠ .panic := by
   unfold decrypt
-  cases hb : b64 file with
-  | none => simp
-  | some enc =>
-    by_cases hl : enc.length < 24
-    · simp [hl]
-    · simp only [hl, if_false]
-      cases sopen (key32 key) (enc.take 24) (enc.drop 24) <;> simp [hl]
-
-/-- the witness: an empty (or any short) ciphertext — e.g. an empty configuration file with MTX_CONFKEY set. -/
-theorem decrypt_total_witness : ¬ decrypt_total_full := by
-  intro h
-  exact h (fun _ => some []) (fun _ _ _ => none) [] [] rfl
-
-/-- totality outside the finding's class. -/
-theorem decrypt_total_partial (b64 : Bytes → Option Bytes) (sopen : Bytes → Bytes → Bytes → Option Bytes) (key file : Bytes)
-    (h : ∀ enc, b64 file = some enc → 24 ≤ enc.length) : decrypt b64 sopen key file ≠ .panic := by
-  intro hp
-  obtain ⟨enc, he, hl⟩ := (decrypt_panic_iff b64 sopen key file).mp hp
-  have := h enc he
-  omega
-
-/-- with the proposed length check `Decrypt` is total … -/
-theorem decryptFixed_total (b64 : Bytes → Option Bytes) (sopen : Bytes → Bytes → Bytes → Option Bytes) (key file : Bytes) :
-    decryptFixed b64 sopen key file ≠ .panic := by
-  unfold decryptFixed
   cases b64 file with
   | none => simp
   | some enc =>
@@ -50,32 +20,44 @@ theorem decryptFixed_total (b64 : Bytes → Option Bytes) (sopen : Bytes → Byt
     · simp only [hl, if_false]
       cases sopen (key32 key) (enc.take 24) (enc.drop 24) <;> simp
 
-/-- … and unchanged wherever the current code does not panic. -/
-theorem decryptFixed_agrees (b64 : Bytes → Option Bytes) (sopen : Bytes → Bytes → Bytes → Option Bytes) (key file : Bytes)
-    (h : decrypt b64 sopen key file ≠ .panic) : decryptFixed b64 sopen key file = decrypt b64 sopen key file := by
-  unfold decrypt decryptFixed at *
+theorem stage_total (s : Option StageCol) : stage s ≠ .panic := by
+  cases s with
+  | none => simp [stage]
+  | some s =>
+    simp only [stage]
+    have := decrypt_total (fun _ => s.b64) (fun _ _ _ => s.opened) s.key []
+    cases h : decrypt (fun _ => s.b64) (fun _ _ _ => s.opened) s.key [] <;> simp_all
+
+/-- the decryption stages of `loadFromFile` (RTSP_CONFKEY, MTX_CONFKEY) never panic. -/
+theorem loadDecrypt_total (rk mk : Option StageCol) : loadDecrypt rk mk ≠ .panic := by
+  unfold loadDecrypt
+  have h1 := stage_total rk
+  have h2 := stage_total mk
+  cases h : stage rk <;> simp_all
+
+/-- regression record of F-C10 (fixed in a83b2fa): without the length check the function panicked exactly when
+the base64 text decoded to fewer than 24 bytes … -/
+theorem decryptUnchecked_panic_iff (b64 : Bytes → Option Bytes) (sopen : Bytes → Bytes → Bytes → Option Bytes) (key file : Bytes) :
+    decryptUnchecked b64 sopen key file = .panic ↔ ∃ enc, b64 file = some enc ∧ enc.length < 24 := by
+  unfold decryptUnchecked
+  cases hb : b64 file with
+  | none => simp
+  | some enc =>
+    by_cases hl : enc.length < 24
+    · simp [hl]
+    · simp only [hl, if_false]
+      cases sopen (key32 key) (enc.take 24) (enc.drop 24) <;> simp [hl]
+
+/-- … and the check changed nothing else. -/
+theorem decrypt_agrees_unchecked (b64 : Bytes → Option Bytes) (sopen : Bytes → Bytes → Bytes → Option Bytes) (key file : Bytes)
+    (h : decryptUnchecked b64 sopen key file ≠ .panic) : decrypt b64 sopen key file = decryptUnchecked b64 sopen key file := by
+  unfold decrypt decryptUnchecked at *
   cases hb : b64 file with
   | none => rfl
   | some enc =>
     by_cases hl : enc.length < 24
     · simp [hb, hl] at h
     · simp [hl]
-
-theorem stage_fixed_total (s : Option StageCol) : stage true s ≠ .panic := by
-  cases s with
-  | none => simp [stage]
-  | some s =>
-    simp only [stage, if_true]
-    have := decryptFixed_total (fun _ => s.b64) (fun _ _ _ => s.opened) s.key []
-    cases h : decryptFixed (fun _ => s.b64) (fun _ _ _ => s.opened) s.key [] <;> simp_all
-
-/-- the decryption stages of `loadFromFile` (RTSP_CONFKEY, MTX_CONFKEY) never panic once `Decrypt` checks the length. -/
-theorem loadDecrypt_fixed_total (rk mk : Option StageCol) : loadDecrypt true rk mk ≠ .panic := by
-  unfold loadDecrypt
-  have h1 := stage_fixed_total rk
-  have h2 := stage_fixed_total mk
-  cases h : stage true rk <;> simp_all
-
 
 /-! ### Validate -/
 
@@ -232,10 +214,9 @@ example : (validate { sampleOK with wqs := 6 }).toBool = false := by decide
 def sampleAll : PathV := { name := b!"all", source := b!"rtsp://h/p", urlOk := true, recordPath := b!"%path/%s" }
 example : (validate { sampleOK with paths := [sampleAll] }).toBool = false := by decide
 example : (validate { sampleOK with paths := [{ sampleAll with sod := true }] }).toBool = true := by decide
--- env class
-example : envKeyHitsNull [b!"foo"] b!"MTX_PATHS_FOO_SOURCE" = true := by decide
-example : envKeyHitsNull [b!"foo"] b!"MTX_PATHS_BAR_SOURCE" = false := by decide
-example : envKeyHitsNull [b!"foo"] b!"MTX_PATHS_foo_SOURCE" = false := by decide
-example : envKeyHitsNull [b!"a_b"] b!"MTX_PATHS_A_B_SOURCE" = false := by decide
+-- class of the open env finding
+example : envNilReceiver [b!"MTX_RECORDFORMAT"] [b!"MTX_RECORDFORMATX"] = true := by decide
+example : envNilReceiver [b!"MTX_RECORDFORMAT"] [b!"MTX_RECORDFORMAT", b!"MTX_RECORDFORMATX"] = false := by decide
+example : envNilReceiver [b!"MTX_RECORDFORMAT"] [b!"MTX_RECORDPATH"] = false := by decide
 
 end MtxVerif.C10
